@@ -9,6 +9,7 @@ import SmsVerif.Driver.Tlv
 import SmsVerif.Driver.Framing
 import SmsVerif.Driver.Receipt
 import SmsVerif.Driver.Validity
+import SmsVerif.Driver.Text
 open SmsVerif SmsVerif.Driver
 
 def dispatch (line : String) : String :=
@@ -19,6 +20,7 @@ def dispatch (line : String) : String :=
   | "dec" :: toks => (handleDec toks).getD "bad-op"
   | "decalloc" :: toks => (handleDecAlloc toks).getD "bad-op"
   | ["pdus"] => handlePdus
+  | "text" :: toks => (handleText toks).getD "bad-op"
   | "validity" :: toks => (handleValidity toks).getD "bad-op"
   | "receipt" :: toks => (handleReceipt toks).getD "bad-op"
   | "frame" :: toks => (handleFrame toks).getD "bad-op"
